@@ -413,11 +413,28 @@ func lazyTraces(calls []getterCall, evs []hookEvent, res *childResult) [][]strin
 		}
 		sort.SliceStable(steps, func(i, j int) bool { return steps[i].at < steps[j].at })
 		// number the objects in the order of their decode steps, as the model's allocator does
+		// (keyed by the decoding call, not by the address: the object of a losing CAS is garbage and its address
+		// may be handed out again to a later decoder of the same recording)
+		objOfThread := map[string]int{}
 		for _, s := range steps {
 			if s.tok[0] == "D" || s.tok[0] == "A" {
-				if _, seen := objID[s.dec]; !seen {
-					objID[s.dec] = len(objID)
+				if _, seen := objOfThread[s.tok[1]]; !seen {
+					objOfThread[s.tok[1]] = len(objOfThread)
 				}
+			}
+		}
+		// an address that a reader obtained: the object of the call that published it (CAS winner), else of the
+		// latest call that decoded into that address
+		for i, t := range ths {
+			if id, ok := objOfThread[fmt.Sprint(i)]; ok && t.entered {
+				if _, isWinner := objID[t.mine]; !isWinner || t.cellAfter == t.mine {
+					objID[t.mine] = id
+				}
+			}
+		}
+		for i, t := range ths {
+			if id, ok := objOfThread[fmt.Sprint(i)]; ok && t.entered && t.cellAfter == t.mine {
+				objID[t.mine] = id
 			}
 		}
 		line := []string{"lazy"}
@@ -430,7 +447,7 @@ func lazyTraces(calls []getterCall, evs []hookEvent, res *childResult) [][]strin
 		for _, s := range steps {
 			switch s.tok[0] {
 			case "D", "A":
-				line = append(line, s.tok[0], s.tok[1], fmt.Sprint(objID[s.dec]))
+				line = append(line, s.tok[0], s.tok[1], fmt.Sprint(objOfThread[s.tok[1]]))
 			case "L":
 				var p uintptr
 				fmt.Sscanf(s.tok[2], "@%d", &p)
@@ -444,7 +461,7 @@ func lazyTraces(calls []getterCall, evs []hookEvent, res *childResult) [][]strin
 			}
 		}
 		res.Hist[fmt.Sprintf("trace:cell-readers:%d", len(ths))]++
-		res.Hist[fmt.Sprintf("trace:cell-decoders:%d", len(objID))]++
+		res.Hist[fmt.Sprintf("trace:cell-decoders:%d", len(objOfThread))]++
 		out = append(out, line)
 	}
 	return out
